@@ -470,6 +470,9 @@ def Op.addr : Op ν → Option Nat
   | .replicate i _ _ => some i
   | .express i _ => some i
   | .getValue i _ => some i
+  | .validate i => some i
+  | .listGenes i => some i
+  | .diff i _ => some i
 
 theorem step_noid {env : Env ν} {st : Store ν} {op : Op ν} {i : Nat} (hop : op.addr = some i)
     (hi : st.genomes[i]? = none) : step env st op = (st, .bad) := by
@@ -523,6 +526,15 @@ theorem step_express {env : Env ν} {st : Store ν} {i : Nat} {ctx : List Nat} {
 theorem step_getValue {env : Env ν} {st : Store ν} {i n : Nat} {g : Genome ν}
     (hi : st.genomes[i]? = some g) : step env st (.getValue i n) = (st, .value (getValue g n)) := by
   simp [step, hi]
+
+/-- the read-only queries leave the store alone -/
+theorem step_query {env : Env ν} {st : Store ν} {op : Op ν}
+    (hq : (∃ i, op = .validate i) ∨ (∃ i, op = .listGenes i) ∨ (∃ i j, op = .diff i j)) :
+    (step env st op).1 = st := by
+  rcases hq with ⟨i, rfl⟩ | ⟨i, rfl⟩ | ⟨i, j, rfl⟩
+  · simp only [step]; split <;> rfl
+  · simp only [step]; split <;> rfl
+  · simp only [step]; split <;> rfl
 
 /-- Frame + evolution: after any operation every genome that existed is still at its place, has evolved by
     the API only, and is literally unchanged unless the operation was invoked on it. -/
@@ -602,6 +614,9 @@ theorem step_frame (env : Env ν) (st : Store ν) (op : Op ν) (j : Nat) (g : Ge
       rw [step_noid rfl hi]
       exact ⟨g, hj, Evolves.refl env g, fun _ => rfl⟩
     | some gi => rw [step_getValue hi]; exact ⟨g, hj, Evolves.refl env g, fun _ => rfl⟩
+  | validate i => rw [step_query (Or.inl ⟨i, rfl⟩)]; exact ⟨g, hj, Evolves.refl env g, fun _ => rfl⟩
+  | listGenes i => rw [step_query (Or.inr (Or.inl ⟨i, rfl⟩))]; exact ⟨g, hj, Evolves.refl env g, fun _ => rfl⟩
+  | diff i j' => rw [step_query (Or.inr (Or.inr ⟨i, j', rfl⟩))]; exact ⟨g, hj, Evolves.refl env g, fun _ => rfl⟩
 
 theorem run_nil (env : Env ν) (st : Store ν) : run env st [] = st := rfl
 theorem run_cons (env : Env ν) (st : Store ν) (op : Op ν) (ops : List (Op ν)) :
@@ -719,6 +734,9 @@ theorem step_unauthorised {env : Env ν} {st : Store ν} {op : Op ν} {i : Nat} 
     | replicate _ _ _ => simp [Op.target] at ht
     | express _ _ => simp [Op.target] at ht
     | getValue _ _ => simp [Op.target] at ht
+    | validate _ => simp [Op.target] at ht
+    | listGenes _ => simp [Op.target] at ht
+    | diff _ _ => simp [Op.target] at ht
   · have := hfr ht
     subst this
     exact ⟨g', hg', rfl, rfl, rfl⟩
@@ -935,6 +953,9 @@ theorem step_wf (env : Env ν) (st : Store ν) (op : Op ν) (hw : WF st) : WF (s
     cases hi : st.genomes[i]? with
     | none => rw [step_noid rfl hi]; exact hw
     | some gi => rw [step_getValue hi]; exact hw
+  | validate i => rw [step_query (Or.inl ⟨i, rfl⟩)]; exact hw
+  | listGenes i => rw [step_query (Or.inr (Or.inl ⟨i, rfl⟩))]; exact hw
+  | diff i j => rw [step_query (Or.inr (Or.inr ⟨i, j, rfl⟩))]; exact hw
 
 theorem run_wf (env : Env ν) (ops : List (Op ν)) : ∀ (st : Store ν), WF st → WF (run env st ops) := by
   induction ops with
@@ -1444,6 +1465,9 @@ theorem step_keysEq (env : Env ν) (st : Store ν) (op : Op ν) (hw : KeysEqS st
     cases hi : st.genomes[i]? with
     | none => rw [step_noid rfl hi]; exact hw
     | some gi => rw [step_getValue hi]; exact hw
+  | validate i => rw [step_query (Or.inl ⟨i, rfl⟩)]; exact hw
+  | listGenes i => rw [step_query (Or.inr (Or.inl ⟨i, rfl⟩))]; exact hw
+  | diff i j => rw [step_query (Or.inr (Or.inr ⟨i, j, rfl⟩))]; exact hw
 
 theorem run_keysEq (env : Env ν) (ops : List (Op ν)) : ∀ (st : Store ν), KeysEqS st → KeysEqS (run env st ops) := by
   induction ops with
